@@ -29,6 +29,7 @@ func init() {
 			{ID: "R09.9", Template: "T-MUSTPASS", Text: "linking a funcref global records the exporting instance in the importer (genuine interpreter defect found and fixed)", Min: 1},
 			{ID: "R09.8", Template: "T-CONSULT", Text: "an engine's compiled-module entry, shared by all compilations of one module ID, is deleted only with its last user (genuine defect found and fixed: found independently by four hunts)", Min: 2},
 			{ID: "R09.1", Template: "T-WHOCALLS", Text: "callers of MunmapCodeSegment are registered finalizers; finalizers are only referenced as finalizer arguments", Min: 4},
+			{ID: "R09.10", Template: "T-OWN", Text: "instance fields whose element addresses the compiler records as raw integers are not reassigned on close paths", Min: 1},
 			{ID: "R09.2", Template: "T-MUSTPASS", Text: "every mapping site reaches the owner's finalizer registration on all normal paths (interprocedural summaries)", Min: 10},
 			{ID: "R09.3", Template: "T-OWN", Text: "finalizer-carrying types are never held or copied by value", Min: 2},
 			{ID: "R09.4", Template: "T-WHOWRITES", Text: "keep-alive links are not written on close paths; list-typed links only grow", Min: 10},
@@ -38,6 +39,8 @@ func init() {
 		},
 		Run: runC09,
 		Controls: []core.Control{
+			{Name: "refcount-threshold-off-by-one", File: "internal/engine/interpreter/interpreter.go", Old: "\tif refs := e.compiledFunctionsRefs[module.ID]; refs > 1 {\n\t\te.compiledFunctionsRefs[module.ID] = refs - 1\n", New: "\tif refs := e.compiledFunctionsRefs[module.ID] - 1; refs > 1 {\n\t\te.compiledFunctionsRefs[module.ID] = refs\n", Rule: "R09.8", Substr: "exactly the last"},
+			{Name: "segments-dropped-on-close", File: "internal/wasm/module_instance.go", Old: "\tif m.CodeCloser != nil {\n", New: "\tm.DataInstances, m.ElementInstances = nil, nil\n\tif m.CodeCloser != nil {\n", Rule: "R09.10", Substr: "pinned"},
 			{Name: "funcref-global-import-not-pinned", File: "internal/wasm/store.go", Old: "\t\t\t\tif importedGlobal.Type.ValType == ValueTypeFuncref {\n\t\t\t\t\tm.importedFuncrefGlobalOwners = append(m.importedFuncrefGlobalOwners, importedModule)\n\t\t\t\t}\n", New: "", Rule: "R09.9", Substr: "global"},
 			{Name: "compiled-entry-deleted-by-any-user", File: "internal/engine/wazevo/engine.go", Old: "\t\tif cm.refCount--; cm.refCount > 0 {\n\t\t\treturn\n\t\t}\n", New: "", Rule: "R09.8", Substr: "compiler"},
 			{Name: "delete-unmaps-code", File: "internal/engine/wazevo/engine.go", Old: "\t\tdelete(e.compiledModules, m.ID)\n\t}\n}", New: "\t\tdelete(e.compiledModules, m.ID)\n\t\tif len(cm.executable) > 0 {\n\t\t\t_ = platform.MunmapCodeSegment(cm.executable)\n\t\t}\n\t}\n}", Rule: "R09.1", Substr: "DeleteCompiledModule"},
@@ -281,6 +284,8 @@ func runC09(c *core.Ctx) {
 
 	// ---- R09.7 dynamic reference stores
 	checkDynamicRefStores(c)
+
+	checkPinnedFieldsNotReassigned(c)
 }
 
 // ---------------------------------------------------------------------------------------------------------
